@@ -34,8 +34,21 @@
 (*   Gate         GPB1: the chi-square gate alone closes estimation        *)
 (*   NoObs        update([]) : nothing changes                             *)
 (*                                                                         *)
+(* Likelihood values.  The likelihoods of one update are known to Bayes'   *)
+(* rule only up to a common positive factor, so the integers of LVals are  *)
+(* RATIOS: the real likelihood of model k is c * lik[k] with any c > 0     *)
+(* (the replay driver draws c from 1 down to 1e-300 and lets det(S) under- *)
+(* and overflow).  The value 0 means TRUE underflow: the Gaussian          *)
+(* likelihood, however it is evaluated, is 0.0 in IEEE double (NIS beyond  *)
+(* about 1490 after the determinant term).  The fallback of                *)
+(* ResetOnZeroMass is admissible ONLY when every model's mass is zero in   *)
+(* that sense (ResetOnlyOnTrueUnderflow); a total mass that is merely      *)
+(* small (every NIS above 68, a large or tiny det(S), many stacked          *)
+(* measurements) must go through Bayes' rule.                              *)
+(*                                                                         *)
 (* Property C18 = the invariants NonNegative, SumToOne, AtLeastOneModel,   *)
-(* BayesRule, ModeMixValid, MixtureMoments, SpreadForm, HandBackIsSurvivor.*)
+(* BayesRule, ResetOnlyOnTrueUnderflow, ModeMixValid, MixtureMoments,      *)
+(* SpreadForm, HandBackIsSurvivor.                                         *)
 (* TieFree is a side condition of the binding (no probability sits exactly *)
 (* on a threshold in the explored lattice); PruneNeverEmpties says the     *)
 (* admissible set of Prune is never empty.                                 *)
@@ -293,6 +306,13 @@ BayesRule ==
           THEN /\ didReset
                /\ Reduce(mass) = Reduce(IF cfg.kind = "smm" THEN Ones(Len(models)) ELSE prior)
           ELSE /\ ~didReset /\ Reduce(mass) = Reduce(prod)
+\* the fallback replaces Bayes' rule exactly when every prior * likelihood is zero (true underflow),
+\* and the outcome of an update does not depend on the common scale of its likelihoods
+ResetOnlyOnTrueUnderflow ==
+  pc \in {"reset", "normalised", "compiled", "pruned"} =>
+     /\ (didReset <=> \A k \in DOMAIN lik : prior[k] * lik[k] = 0)
+     /\ (pc \in {"reset", "normalised"} /\ ~didReset) =>
+           \A c \in {2, 7, 1000} : Reduce([k \in DOMAIN lik |-> prior[k] * (c * lik[k])]) = Reduce(mass)
 \* GPB1: new mode probabilities are a stochastic mix of the posterior: every entry between
 \* the smallest and largest mixing coefficient, total preserved
 ModeMixValid ==
